@@ -94,6 +94,32 @@ def spelled(rnd, tier):
     return out
 
 
+def chains():
+    """Names defined through other names (two to five levels, defined before or after), used more than once in one expression."""
+    out = []
+    eq = {"ca": binop("+", num(1), num(1)), "cb": binop("*", sym("ca"), num(2)), "cc": binop("+", num(10), sym("cb")),
+          "cd": binop("-", sym("cc"), sym("ca")), "ce": binop("^", sym("cd"), binop("<<", sym("cb"), num(4)))}
+    names = list(eq)
+    for i, a in enumerate(names):
+        for b in names[:i + 1]:
+            for o in BINOPS:
+                out.append(ExprCase(binop(o, sym(a), sym(b)), equs=eq, tag="chains"))
+                out.append(ExprCase(binop(o, sym(b), binop("+", sym(a), sym(a))), equs=eq, tag="chains"))
+        for u in UNOPS:
+            out.append(ExprCase(binop("+", un(u, sym(a)), sym(a)), equs=eq, tag="chains"))
+        for f in FUNCS:
+            out.append(ExprCase(binop("|", fn(f, sym(a)), binop("<<", sym(a), num(8))), equs=eq, tag="chains"))
+    for case in ("upper", "mixed"):
+        for a in names:
+            out.append(ExprCase(binop("+", binop("*", sym(a), sym(a)), sym("cb")), equs=eq, spell=Spell(case=case), tag="chains"))
+    # names that begin like registers, index registers or functions
+    for nme in ("xval", "ypos", "zed", "x2", "rate", "r3d", "lowest", "highway", "pcx"):
+        for u in UNOPS:
+            out.append(ExprCase(un(u, sym(nme)), equs={nme: num(5)}, tag="names"))
+            out.append(ExprCase(binop("-", num(9), un(u, sym(nme))), equs={nme: binop("+", num(2), num(3))}, tag="names"))
+    return out
+
+
 def grid():
     out = []
     g = grid_values()
@@ -145,7 +171,7 @@ def check(prop, tier, seed):
     scratch = Scratch(prop)
     v = Verdict(prop, tier, seed, "model_checking")
     try:
-        cases = grid() + shapes(tier) + spelled(rnd, tier) + error_propagation()
+        cases = grid() + shapes(tier) + spelled(rnd, tier) + error_propagation() + chains()
         g = grid_values()
         for _ in range(3000 if tier == "quick" else 60000):
             cases.append(ExprCase(random_tree(rnd, rnd.randrange(2, 7), g), tag="random"))
@@ -195,7 +221,7 @@ def check(prop, tier, seed):
             "evaluations": len(events), "distinct_nontrivial": len({c.src for c in cases}),
             "rule": "grid: 18 binary operators x G x G, 3 unary and 8 functions x G with G = %d boundary values; all depth-2 operator shapes with "
                     "small leaves rendered with only the required parentheses; leaves in 6 radices / as .equ symbols / as labels in 3 letter cases; "
-                    "an undefined name / zero divisor / overflow on either side of every operator; seeded random trees of depth 2-6; distinct = distinct sources" % len(g),
+                    "an undefined name / zero divisor / overflow on either side of every operator; names defined through chains of other names used repeatedly; names beginning like registers or functions; seeded random trees of depth 2-6; distinct = distinct sources" % len(g),
             "tags": _count(c.tag.split(".")[0] for c in cases),
             "observed_ok": len(oks), "observed_err": len(errs), "observed_other": len(events) - len(oks) - len(errs),
             "rejected_events": len([i for i in rejected if i < len(events)]),
